@@ -411,6 +411,17 @@ func (a *apiCtx) membershipClause() {
 			server, add, desc = l, false, "RemoveServer(the leader itself)"
 		}
 	}
+	// the clause needs a clean starting point: no other change pending at the leader, and the server's membership
+	// in the committed configuration must actually be changed by the call
+	st0 := x.C.Node(l).R().VerifState()
+	if st0.CommittedConfiguration == nil || st0.Configuration == nil || st0.CommittedConfiguration.Index != st0.Configuration.Index {
+		x.count("api.membership_clause_skipped_pending", 1)
+		return
+	}
+	if _, was := st0.CommittedConfiguration.Members[server]; was == add {
+		x.count("api.membership_clause_skipped_noop", 1)
+		return
+	}
 	// recorded as a membership operation, so that the majority oracles follow the configurations in force
 	mop := &mon.Op{Client: 98, ID: nextOp("clause"), Type: map[bool]string{true: "ADD", false: "REM"}[add], Target: l, Server: server}
 	x.M.Emit(mon.Event{Kind: mon.KCall, Op: mop})
